@@ -8,6 +8,9 @@
 From CG Require Import Base.Prelude Model.Ast Model.Dfa Model.Check Model.Regex Model.Subset Spec.Lang.
 From CG Require Import Proofs.RxLang Proofs.Glushkov Proofs.SubsetStmt Proofs.SubsetConstr.
 From CG Require Import Proofs.LangJudge Proofs.C02Lang.
+From CG Require Import Model.Minimize Spec.DfaEquiv Spec.MinimizeSpec.
+From CG Require Import Proofs.Useful Proofs.RegexFuel Proofs.SubsetFuel Proofs.TreeFacts Proofs.CheckTree.
+From CG Require Import Proofs.WfTrim Proofs.C02Total Proofs.RegexNoPanic Proofs.C02Final Proofs.DistributeLits.
 
 (** (a) L-glushkov for the model's tables: for the tree [t] of an expression (n-ary [Cat] with the
     skip-nullable loop, [Or], [Many1 x = Cat [x; Star x]] sharing [x]) and its end marker [e], a
@@ -222,6 +225,165 @@ Check C02_subs_ok_equiv :
     (forall k v, waccepts (sub_dfa (mkcdfa d subs') k) v <-> waccepts (sub_dfa (mkcdfa d subs) k) v) ->
     forall d', subs_ok submap pl (mkcdfa d' subs').
 Print Assumptions C02_subs_ok_equiv.
+
+(** *** The link to C03, totality, and the minimised automata *)
+
+(** What the checker guarantees about the tree it returns: no distributive description is left,
+    composite words are flat, every leaf carries the index of the innermost || branch it sits in,
+    and (when the source has no empty | or ||, which the parser guarantees) neither has the tree. *)
+Theorem C02_check_tree :
+  forall builtins g sh v, from_grammar builtins g sh = Ok v ->
+    dd_free (v_expr v) = true /\
+    flat_subwords (v_expr v) = true /\
+    levels_ok 0 (v_expr v) = true /\
+    (grammar_alts_nonempty g = true -> alts_nonempty (v_expr v) = true).
+Proof. exact check_tree. Qed.
+Check C02_check_tree :
+  forall builtins g sh v, from_grammar builtins g sh = Ok v ->
+    dd_free (v_expr v) = true /\
+    flat_subwords (v_expr v) = true /\
+    levels_ok 0 (v_expr v) = true /\
+    (grammar_alts_nonempty g = true -> alts_nonempty (v_expr v) = true).
+Print Assumptions C02_check_tree.
+
+(** Descriptions through the checker's distribution pass: literals keep their order and texts, a
+    literal keeps the description written on it, and a literal without one receives nothing, or a
+    description written behind an enclosing expression: none is invented, none is moved off its
+    literal. *)
+Theorem C02_distribute_lits :
+  forall e, Forall2 (lit_ok None (dd_descrs e)) (lits e) (lits (distribute_descriptions e)).
+Proof. exact distribute_descriptions_lits. Qed.
+Check C02_distribute_lits :
+  forall e, Forall2 (lit_ok None (dd_descrs e)) (lits e) (lits (distribute_descriptions e)).
+Print Assumptions C02_distribute_lits.
+
+(** Every position is useful: from each one a chain of followpos edges leads to the end marker. *)
+Theorem C02_useful_positions :
+  forall t e, shape t -> ors_nonempty t = true -> ~ In e (positions t) ->
+    firstpos (with_end t e) <> [] /\
+    forall p, In p (positions t) ->
+      exists r, chain (followpos (with_end t e)) p r /\
+                In (last r p, e) (followpos (with_end t e)).
+Proof. exact useful_positions. Qed.
+Check C02_useful_positions :
+  forall t e, shape t -> ors_nonempty t = true -> ~ In e (positions t) ->
+    firstpos (with_end t e) <> [] /\
+    forall p, In p (positions t) ->
+      exists r, chain (followpos (with_end t e)) p r /\
+                In (last r p, e) (followpos (with_end t e)).
+Print Assumptions C02_useful_positions.
+
+(** The hypotheses of the C03 theorems hold for every raw automaton the model compiles (main or
+    within-word; [pl0] is the pool so far): for every pop order. *)
+Theorem C03_wf_from_regex :
+  forall pick fuel submap e pl0 r pl d states,
+    alts_nonempty e = true -> Forall regex_good pl0 ->
+    from_expr e pl0 = Ok (r, pl) ->
+    dfa_from_regex pick fuel submap r = Ok (d, states) ->
+    wf d /\ trim d.
+Proof. exact wf_trim_from_regex. Qed.
+Check C03_wf_from_regex :
+  forall pick fuel submap e pl0 r pl d states,
+    alts_nonempty e = true -> Forall regex_good pl0 ->
+    from_expr e pl0 = Ok (r, pl) ->
+    dfa_from_regex pick fuel submap r = Ok (d, states) ->
+    wf d /\ trim d.
+Print Assumptions C03_wf_from_regex.
+
+(** C02 after minimisation, including the nested automata: when every within-word automaton is
+    the minimised raw automaton of the pool regex the oracle names ([subs_minimised]), the
+    minimised main automaton accepts exactly the item words the tree denotes. *)
+Theorem C02_minimised :
+  forall pick fuel submap e r pl d states subs m,
+    alts_nonempty e = true ->
+    from_expr e [] = Ok (r, pl) ->
+    dfa_from_regex pick fuel submap r = Ok (d, states) ->
+    subs_minimised submap pl subs ->
+    minimize d = Ok m ->
+    forall w, accepts_items (mkcdfa m subs) w <-> denotes e w.
+Proof. exact C02_minimised_model. Qed.
+Check C02_minimised :
+  forall pick fuel submap e r pl d states subs m,
+    alts_nonempty e = true ->
+    from_expr e [] = Ok (r, pl) ->
+    dfa_from_regex pick fuel submap r = Ok (d, states) ->
+    subs_minimised submap pl subs ->
+    minimize d = Ok m ->
+    forall w, accepts_items (mkcdfa m subs) w <-> denotes e w.
+Print Assumptions C02_minimised.
+
+(** Fuel adequacy: the ambiguity walks never run out of [regex_fuel]; the subset construction
+    never runs out of any fuel above [2^(n+1)] when the tables mention positions up to [n] only. *)
+Theorem C02_fuel_check_ambiguities : forall r pl, check_ambiguities r pl <> OutOfFuel.
+Proof. exact check_ambiguities_fuel. Qed.
+Check C02_fuel_check_ambiguities : forall r pl, check_ambiguities r pl <> OutOfFuel.
+Print Assumptions C02_fuel_check_ambiguities.
+
+Theorem C02_fuel_subset :
+  forall pick fuel submap r n,
+    tables_bounded r (N.of_nat n) -> (pow2 (S n) < fuel)%nat ->
+    dfa_from_regex pick fuel submap r <> OutOfFuel.
+Proof. exact dfa_from_regex_fuel. Qed.
+Check C02_fuel_subset :
+  forall pick fuel submap r n,
+    tables_bounded r (N.of_nat n) -> (pow2 (S n) < fuel)%nat ->
+    dfa_from_regex pick fuel submap r <> OutOfFuel.
+Print Assumptions C02_fuel_subset.
+
+Theorem C02_check_ambiguities_result :
+  forall e r pl, flat_subwords e = true -> from_expr e [] = Ok (r, pl) ->
+    check_ambiguities r pl = Ok tt \/
+    exists a b, check_ambiguities r pl = Err (UnboundedMatchable a b).
+Proof. exact check_ambiguities_result. Qed.
+Check C02_check_ambiguities_result :
+  forall e r pl, flat_subwords e = true -> from_expr e [] = Ok (r, pl) ->
+    check_ambiguities r pl = Ok tt \/
+    exists a b, check_ambiguities r pl = Err (UnboundedMatchable a b).
+Print Assumptions C02_check_ambiguities_result.
+
+(** Totality, from the checker's output: the regex is built (no panic), the ambiguity check
+    returns [Ok] or the [UnboundedMatchable] diagnostic (no panic, no fuel exhaustion), and for every pop order, every oracle defined on the within-word regexes
+    that occur and every fuel above [2^(positions+1)] the raw automaton exists, satisfies C03's
+    hypotheses, its minimisation exists and is the trim minimal automaton of the same language,
+    and with minimised within-word automata it accepts exactly what the tree denotes. *)
+Theorem C02_total :
+  forall builtins g sh v,
+    from_grammar builtins g sh = Ok v -> grammar_alts_nonempty g = true ->
+    exists r pl,
+      from_expr (v_expr v) [] = Ok (r, pl) /\
+      (check_ambiguities r pl = Ok tt \/
+       exists a b, check_ambiguities r pl = Err (UnboundedMatchable a b)) /\
+      forall pick fuel submap,
+        (forall rid l sp, In (RSub rid l sp) (r_inputs r) -> assocN rid submap <> None) ->
+        (pow2 (S (List.length (r_inputs r))) < fuel)%nat ->
+        exists d states m,
+          dfa_from_regex pick fuel submap r = Ok (d, states) /\
+          wf d /\ trim d /\
+          minimize d = Ok m /\
+          (forall ids, accepts m ids = accepts d ids) /\
+          trim m /\ pairwise_distinguishable m /\ minimal_size m /\
+          forall subs, subs_minimised submap pl subs ->
+            forall w, accepts_items (mkcdfa m subs) w <-> denotes (v_expr v) w.
+Proof. exact C02_total_full. Qed.
+Check C02_total :
+  forall builtins g sh v,
+    from_grammar builtins g sh = Ok v -> grammar_alts_nonempty g = true ->
+    exists r pl,
+      from_expr (v_expr v) [] = Ok (r, pl) /\
+      (check_ambiguities r pl = Ok tt \/
+       exists a b, check_ambiguities r pl = Err (UnboundedMatchable a b)) /\
+      forall pick fuel submap,
+        (forall rid l sp, In (RSub rid l sp) (r_inputs r) -> assocN rid submap <> None) ->
+        (pow2 (S (List.length (r_inputs r))) < fuel)%nat ->
+        exists d states m,
+          dfa_from_regex pick fuel submap r = Ok (d, states) /\
+          wf d /\ trim d /\
+          minimize d = Ok m /\
+          (forall ids, accepts m ids = accepts d ids) /\
+          trim m /\ pairwise_distinguishable m /\ minimal_size m /\
+          forall subs, subs_minimised submap pl subs ->
+            forall w, accepts_items (mkcdfa m subs) w <-> denotes (v_expr v) w.
+Print Assumptions C02_total.
 
 (** Non-vacuity: [--o=(x|y) [b "d" || c]...] -- a composite word, a description, a || level, an
     option and a repetition.  The model compiles it (two pop orders), the within-word automaton
